@@ -193,6 +193,27 @@ def bounded_run(tier):
                     return n, len(distinct), {"detail": f"[{lang}] splitname({t!r}, {d}): {msg}",
                                               "witness": {"site": lang, "title": t, "defaultns": d}, "class": msg.split(":")[0][:40]}
             distinct.add(h.splitname(t, 0))
+    # namespace names / aliases of EVERY bundled site looked up on each site, in one process after all handlers have
+    # been used: a name the site does not define is no namespace there (state must not leak between sites)
+    allnames = set()
+    for lang, si in sites():
+        for v in si["namespaces"].values():
+            allnames.update(x for x in (v["*"], v.get("canonical")) if x)
+        allnames.update(a["*"] for a in si.get("namespacealiases", []))
+    handlers = [(lang, si, nshandling.NsHandler(si)) for lang, si in sites()]
+    for order in (handlers, list(reversed(handlers))):
+        for lang, si, h in order:
+            for nm in sorted(allnames):
+                n += 1
+                t = nm + ":a"
+                try:
+                    msg = contract(h, si, t, 0)
+                except Exception as e:  # noqa: BLE001
+                    msg = f"raised {type(e).__name__}: {e}"
+                if msg:
+                    return n, len(distinct), {"detail": f"[{lang}, after other sites were handled in the same process] splitname({t!r}, 0): {msg}",
+                                              "witness": {"site": lang, "title": t, "defaultns": 0, "history": "handlers of all bundled sites used in one process"},
+                                              "class": "cross-site:" + msg.split(":")[0][:30]}
     return n, len(distinct), None
 
 
